@@ -23,6 +23,10 @@ enum Edit {
     Rename,
     AddStep,
     RemoveStep,
+    /// `.where(v > 1)` appended as the last operation (after the emit) / dropped again: the only
+    /// edits whose operation list keeps the old one as a prefix (added after seeded change C23)
+    AddTailWhere,
+    RemoveTailWhere,
 }
 
 impl Edit {
@@ -36,6 +40,8 @@ impl Edit {
             Edit::Rename => "rename",
             Edit::AddStep => "add_step",
             Edit::RemoveStep => "remove_step",
+            Edit::AddTailWhere => "add_tail_where",
+            Edit::RemoveTailWhere => "remove_tail_where",
         }
     }
     /// edits that keep the number of pipeline operations of the edited stream (a sequence of any
@@ -70,6 +76,13 @@ fn apply(p: &[StreamSpec], edit: Edit, i: usize) -> Option<Vec<StreamSpec>> {
             }
             // RemoveWhere pairs are built by the caller as (with where) -> (without)
             q[i].pre_where = Some(1);
+        }
+        Edit::AddTailWhere | Edit::RemoveTailWhere => {
+            if !matches!(q[i].tpl, Tpl::FilterEmit(_) | Tpl::CountAgg(_) | Tpl::Seq(_) | Tpl::Join) {
+                return None;
+            }
+            // RemoveTailWhere pairs are built by the caller as (with) -> (without)
+            q[i].post_where = Some(1);
         }
         Edit::Rename => {
             let old = q[i].name.clone();
@@ -106,12 +119,16 @@ fn pairs(threads: usize) -> Vec<Pair> {
     }
     for (_, p) in catalogue() {
         for i in 0..p.len() {
-            for e in [Edit::Threshold, Edit::WindowSize, Edit::AddWhere, Edit::Rename, Edit::AddStep] {
+            for e in [Edit::Threshold, Edit::WindowSize, Edit::AddWhere, Edit::Rename, Edit::AddStep, Edit::AddTailWhere] {
                 if let Some(q) = apply(&p, e, i) {
                     match e {
                         Edit::AddWhere => {
                             specs.push((p.clone(), q.clone(), Edit::AddWhere));
                             specs.push((q, p.clone(), Edit::RemoveWhere));
+                        }
+                        Edit::AddTailWhere => {
+                            specs.push((p.clone(), q.clone(), Edit::AddTailWhere));
+                            specs.push((q, p.clone(), Edit::RemoveTailWhere));
                         }
                         Edit::AddStep => {
                             specs.push((p.clone(), q.clone(), Edit::AddStep));
@@ -316,7 +333,7 @@ pub fn main(args: &Args) -> ! {
         let mut acc = Acc::default();
         let p = Prog::from_json(&case["p"]).unwrap_or_else(|e| mc::machinery_error(&e));
         let q = Prog::from_json(&case["q"]).unwrap_or_else(|e| mc::machinery_error(&e));
-        let edit = [Edit::Identity, Edit::Threshold, Edit::WindowSize, Edit::AddWhere, Edit::RemoveWhere, Edit::Rename, Edit::AddStep, Edit::RemoveStep]
+        let edit = [Edit::Identity, Edit::Threshold, Edit::WindowSize, Edit::AddWhere, Edit::RemoveWhere, Edit::Rename, Edit::AddStep, Edit::RemoveStep, Edit::AddTailWhere, Edit::RemoveTailWhere]
             .into_iter()
             .find(|e| Some(e.name()) == case["edit"].as_str())
             .unwrap_or_else(|| mc::machinery_error("replay: bad edit"));
@@ -386,7 +403,7 @@ pub fn main(args: &Args) -> ! {
     rep.set("max_events", json!(max_len));
     rep.set("max_events_pairs_with_join", json!(max_len_join));
     rep.absorb(acc);
-    rep.rule = "Exhaustive differential enumeration. P ranges over the C16 catalogue (25 programs: filter, emit-less filter, count window+aggregate, 2-/3-step sequence, join, .process, siblings, derived chains, diamond, chain into window/sequence/join). P' = P (identity) or P with one edit of one stream: threshold change, count-window size change, added/removed .where, stream renamed (references updated), sequence step added/removed. Inputs: every event sequence of length 1..=max over types {A,B} x v {1,2} (x k {x,y} when a join is present; max is one less for those pairs), reload at every position 0..=n. Each case runs a fresh engine of P through Engine::process up to the reload position, Engine::reload(P'), then the suffix; the outputs after the reload are compared with (identity / unchanged streams) the same engine's outputs for the suffix without reload and (changed streams) a fresh engine of P' fed the suffix. Non-trivial = the demanded output is non-empty.".into();
+    rep.rule = "Exhaustive differential enumeration. P ranges over the C16 catalogue (25 programs: filter, emit-less filter, count window+aggregate, 2-/3-step sequence, join, .process, siblings, derived chains, diamond, chain into window/sequence/join). P' = P (identity) or P with one edit of one stream: threshold change, count-window size change, added/removed .where directly after the source, added/removed .where as the last operation after the emit, stream renamed (references updated), sequence step added/removed. Inputs: every event sequence of length 1..=max over types {A,B} x v {1,2} (x k {x,y} when a join is present; max is one less for those pairs), reload at every position 0..=n. Each case runs a fresh engine of P through Engine::process up to the reload position, Engine::reload(P'), then the suffix; the outputs after the reload are compared with (identity / unchanged streams) the same engine's outputs for the suffix without reload and (changed streams) a fresh engine of P' fed the suffix. Non-trivial = the demanded output is non-empty.".into();
     rep.assume("only Engine::process drives the events (reload is orthogonal to the entry point; entry-point equivalence is C16)");
     rep.assume("outputs are compared per stream (sequence of each stream's outputs); the interleaving of different streams' outputs for one input event follows hash-map iteration after a reload and is a don't-care (counted as identity_reloads_changing_only_cross_stream_order)");
     rep.assume("streams downstream of a changed stream, and streams that exist only in the old program, are don't-cares");
